@@ -16,6 +16,23 @@ theorem C20_mdd_scan_start_pinned :
     Gen.metricsMddInit = some 0 ∧ Gen.metricsMddInitHigh = 0 ∧ Gen.metricsMddInitLow = 0 ∧ hlInit = ⟨0, 0, 0, 0⟩ := by
   decide +kernel
 
+/-- what pins the rest of the repaired drawdown code.  The body of the scan — the `arr[i_high] > 0` guard, the **relative**
+    `_dp = (arr[i_high] - arr[i]) / arr[i_high]`, the two comparisons — is not hand-copied on trust: `_withdraw_with_high_low` is
+    translated from the current source by tools/py2lean.py on every run and `Tie_metrics_withdraw_with_high_low`
+    (Proofs/Tie/Metrics.lean, audited with this property) proves the translation equal to `withdrawHighLow` for every list;
+    reverting `_dp` to the absolute decline makes that theorem fail.  `max_draw_down` itself (pandas `.iloc`) is not translated:
+    the flag says its body is still `(nv[idx_h] - nv[idx_l]) / nv[idx_h]` on the indices the scan returns, which is what
+    `maxDrawDown` does. -/
+theorem C20_mdd_quotient_on_scan_indices_pinned :
+    Gen.metricsMddQuotientOnScanIndices = true ∧
+    ∀ xs : List Rat, xs ≠ [] → nth xs (withdrawHighLow xs).gHigh ≠ 0 →
+      maxDrawDown xs = .ok ((nth xs (withdrawHighLow xs).gHigh - nth xs (withdrawHighLow xs).gLow) / nth xs (withdrawHighLow xs).gHigh) := by
+  refine ⟨by decide, fun xs hne h0 => ?_⟩
+  have hlen : xs.length ≠ 0 := fun h => hne (List.length_eq_zero_iff.mp h)
+  unfold maxDrawDown
+  rw [if_neg hlen]
+  simp only [h0, if_false]
+
 /-- **the code's scan computes the definition**: for every non-empty positive series `max_draw_down` returns
     exactly the largest relative decline from a point to a later point. -/
 theorem C20_mdd_code_eq_definition (xs : List Rat) (hp : AllPos xs) (hne : xs ≠ []) :
